@@ -10,8 +10,8 @@ RULE = ("Addresses (C->S): every address / state-init yielded by wallet.New(...)
         "initial data; one Distinct judgement over all recorded addresses requires different inputs -> different addresses (over the inputs a version takes; versions "
         "without a wallet: observation only). Send pipeline (S->C): TLC enumerates every history of WalletSend (7 sending "
         "versions x SendV2/Send/RawSendV2/RawSend x with/without confirmation x account none/uninit/frozen/error/active(seqno 0,1,7,"
-        "2^32-1, and one with a non-empty extension dictionary) x send ok/error x poll answers error/unchanged/advanced, <= 6 polls then the "
-        "deadline); each history is replayed against the real entry point with a scripted blockchain interface (account data cells "
+        "2^32-1, and one with a non-empty extension dictionary) x send ok/error x poll answers error/unchanged/lower/advanced, <= 6 polls then the "
+        "deadline; lower answers: full product in the thorough tier, once per history at every position in the quick tier); each history is replayed against the real entry point with a scripted blockchain interface (account data cells "
         "written by the specification); the recorded run (the sent bag decoded in TLA+: src, dest, init, body seqno; polls with clock "
         "readings; result) is accepted only if it is a behaviour of WalletSend!Step and gives the outcome the history requires. "
         "distinct = distinct histories replayed + distinct (api, version, key, workchain, sub-wallet, network) address inputs.")
@@ -70,7 +70,8 @@ def gen_vectors(ck, codes, seeds, wcs, rot):
     # the account-state entry points get the full grid in both tiers; the caller-supplied seqnos of RawSend(V2) are thinned
     # and their poll scripts bounded by 4 in the quick tier
     rawseqs = ["0", "1", "7", "4294967295"] if ck.thorough else ["7", "4294967295"]
-    vlib.write_ndjson(pp, [{"seeds": seeds, "wcs": wcs, "maxpolls": 6, "rawmaxpolls": 6 if ck.thorough else 4, "rawseqs": rawseqs, "rot": rot}])
+    vlib.write_ndjson(pp, [{"seeds": seeds, "wcs": wcs, "maxpolls": 6, "rawmaxpolls": 6 if ck.thorough else 4, "rawseqs": rawseqs,
+                           "lowermode": "full" if (ck.thorough and rot == 0) else "sparse", "rot": rot}])
     res = ck.tlc_or_infra("WalletSend_Gen", "gen/WalletSend_Gen.cfg", files={"params.ndjson": pp, "codes.ndjson": codes},
                           workers=4, timeout=1200, name="gen_rot%d" % rot, heap_gb=4)
     # TLC's workers print in any order: sort the texts so that vector numbers are reproducible
@@ -90,9 +91,14 @@ def check_generator(vs):
         seen[("send", v["send"])] += 1
         if v["exp"]["advanced"]:
             seen[("adv-at", v["exp"]["npolls"])] += 1
+        for i, p in enumerate(v["polls"]):
+            if p["r"] == "val" and v["exp"]["seq"] != "" and int(p["v"]) < int(v["exp"]["seq"]):
+                seen[("lower-at", i + 1)] += 1
+                if v["exp"]["advanced"]:
+                    seen[("lower-before-advance",)] += 1
         if v["confirm"] and v["send"] == "ok" and not v["exp"]["advanced"] and not v["exp"]["freeconfirm"]:
             seen[("deadline-after", len(v["polls"]))] += 1
-    need = [("ver", x) for x in SEND_VERSIONS] + [("adv-at", k) for k in range(1, 7)] + [("deadline-after", k) for k in range(0, 7)]
+    need = [("ver", x) for x in SEND_VERSIONS] + [("adv-at", k) for k in range(1, 7)] + [("lower-at", k) for k in range(1, 7)] + [("lower-before-advance",)] + [("deadline-after", k) for k in range(0, 7)]
     need += [("st", s, "", False) for s in ("none", "uninit", "frozen", "err")] + [("st", "active", n, False) for n in ("0", "1", "7", "4294967295")]
     need += [("st", "active", "7", True), ("send", "ok"), ("send", "err"), ("entry", "SendV2", True), ("entry", "SendV2", False),
              ("entry", "Send", False), ("entry", "RawSendV2", True), ("entry", "RawSendV2", False), ("entry", "RawSend", False)]
@@ -252,7 +258,7 @@ def send_part(ck, codes, out):
         what = ("%s %s (confirm=%s, account %s%s, send %s, polls %s): recorded run is not a behaviour of WalletSend: %s; the history requires %s%s, the call "
                 "returned %s after %d polls (%d histories of this class)") % (
             r_["ver"], r_["entry"], r_["confirm"], r_["st"] or "-", "(" + r_["n"] + ")" if r_["n"] else "", v["send"] or "-",
-            "".join({"err": "E", "val": "="}.get(p["r"]) if (p["r"] == "err" or p["v"] == v["same"]) else "+" for p in v["polls"]) or "-",
+            "".join("E" if p["r"] == "err" else "=" if p["v"] == v["same"] else "<" if int(p["v"]) < int(v["same"]) else "+" for p in v["polls"]) or "-",
             why, v["exp"]["res"], " at poll %d" % v["exp"]["npolls"] if v["exp"]["advanced"] else "", f["res"], f["npolls"], count)
         for _ in range(count):
             ck.report(key, what, {"kind": "run", "vector": v, "why": why, "run": slim_run(r_)})
@@ -463,6 +469,12 @@ def canaries(ck, codes, send, addr):
         c["steps"][k]["r"], c["steps"][k]["v"] = "val", "4294967295"
     with_base("S->C run: a poll reports the seqno advanced, polling continues to the timeout", m_adv, notmax)
     sig = cases[-1][1] if cases and cases[-1][0].startswith("S->C run: a poll reports") else None
+
+    def m_lower(c):
+        ps = [i for i, s in enumerate(c["steps"]) if s["k"] == "Poll"]
+        c["steps"][ps[1]]["v"] = "0"
+        c["steps"] = c["steps"][:ps[1] + 1] + [{"k": "Return", "res": "ok", "us": c["steps"][ps[1]]["us"] + 50}]
+    with_base("S->C run: a poll answers below the seqno used and the call reports success", m_lower, lambda r_: notmax(r_) and r_["exp"]["seq"] not in ("", "0"))
 
     def m_early(c):
         c["steps"] = [s for s in c["steps"] if s["k"] != "Poll"][:-1] + [{"k": "Return", "res": "err", "us": W * 300}]
